@@ -182,6 +182,7 @@ func propC11(rec *stats.Rec, sc *scratch, exclude map[string]bool) func(t *rapid
 			}
 			return rapid.SampledFrom(fs).Draw(t, "file")
 		}
+		awaySeq := 0
 		actions := map[string]func(*rapid.T){
 			"createWrite": func(t *rapid.T) { // create (or truncate) and write in one go
 				p := filepath.Join(pickDir(t), rapid.SampledFrom(names).Draw(t, "name"))
@@ -300,6 +301,37 @@ func propC11(rec *stats.Rec, sc *scratch, exclude map[string]bool) func(t *rapid
 				exists[d] = false
 				record(t, fmt.Sprintf("removeDir %s", rel(d)))
 			},
+			"renameDirAway": func(t *rapid.T) { // the directory leaves its configured path in one rename
+				d := pickDir(t)
+				awaySeq++
+				_ = os.Rename(d, filepath.Join(root, fmt.Sprintf("away%d", awaySeq)))
+				exists[d] = false
+				record(t, fmt.Sprintf("renameDirAway %s", rel(d)))
+			},
+			"renameDirIn": func(t *rapid.T) { // a complete directory appears at a configured path in one rename
+				var missing []string
+				for _, d := range dirs {
+					if !exists[d] {
+						missing = append(missing, d)
+					}
+				}
+				if len(missing) == 0 {
+					t.Skip("no missing directory")
+				}
+				d := rapid.SampledFrom(missing).Draw(t, "dir")
+				awaySeq++
+				stage := filepath.Join(root, fmt.Sprintf("stage%d", awaySeq))
+				_ = os.MkdirAll(stage, 0o755)
+				var descs []string
+				for i, n := 0, rapid.IntRange(0, 2).Draw(t, "nFiles"); i < n; i++ {
+					data, desc := c11Content(t, fmt.Sprintf("rdi%d", i))
+					_ = os.WriteFile(filepath.Join(stage, names[i%len(names)]), data, 0o644)
+					descs = append(descs, desc)
+				}
+				_ = os.Rename(stage, d)
+				exists[d] = true
+				record(t, fmt.Sprintf("renameDirIn %s %v", rel(d), descs))
+			},
 		}
 		for k := range exclude {
 			delete(actions, k)
@@ -313,7 +345,7 @@ func propC11(rec *stats.Rec, sc *scratch, exclude map[string]bool) func(t *rapid
 		}
 		createOnly := false
 		for _, s := range history {
-			if strings.HasPrefix(s.Op, "moveIn") || strings.HasPrefix(s.Op, "linkIn") || strings.HasPrefix(s.Op, "createEmpty") || strings.HasPrefix(s.Op, "removeDir") || strings.HasPrefix(s.Op, "mkdirMissing") {
+			if strings.HasPrefix(s.Op, "moveIn") || strings.HasPrefix(s.Op, "linkIn") || strings.HasPrefix(s.Op, "createEmpty") || strings.HasPrefix(s.Op, "removeDir") || strings.HasPrefix(s.Op, "mkdirMissing") || strings.HasPrefix(s.Op, "renameDir") {
 				createOnly = true
 			}
 		}
